@@ -662,6 +662,9 @@ def _native_tables(tier="quick", seed=0):
 
                 rnd = random.Random(seed + R * 10 + C)
                 seqs = [tuple(rnd.choice(ops) for _ in range(depth)) for _ in range(1500 if tier == "quick" else 6000)]
+            if depth < 3 and 2 <= R * C <= 6:
+                # merge, split that merge, merge again (any range): a split must leave every cell fit for a later merge
+                seqs = list(seqs) + [(m1, ("s", (min(m1[1][0], m1[2][0]), min(m1[1][1], m1[2][1])), None), m2) for m1 in ops if m1[0] == "m" for m2 in ops if m2[0] == "m"]
             prs = Presentation()
             slide = prs.slides.add_slide(prs.slide_layouts[6])
             for seq in seqs:
